@@ -332,7 +332,7 @@ impl Check for C14 {
     fn cases(&self, tier: Tier) -> u64 {
         match tier {
             Tier::Quick => 1500,
-            Tier::Thorough => 5000,
+            Tier::Thorough => 15000,
         }
     }
     fn langs(&self) -> Vec<&'static str> {
